@@ -180,6 +180,13 @@ def run(ctx, rep):
                 ms = True
             if cn in empties and v == "true" and is_old_tail(event_args(ga, cn)[0]):
                 ms = True
+            if cn is not None and v in ("None", "Some") and cmatch(ga.term(cn), r"bool(::<impl bool>)?::(then|then_some)$"):
+                # `(!tail.is_empty()).then(|| request)` came out None: the condition was false, i.e. the old tail is empty
+                c = strip_ids(event_args(ga, cn)[0])
+                neg = isinstance(c, tuple) and c and c[0] == "unop" and c[1] == "Not"
+                inner = c[2] if neg else c
+                if call_is(inner, r"Vec::<T, A>::is_empty$") and is_old_tail(call_arg(inner, 0)) and ((neg and v == "None") or (not neg and v == "Some")):
+                    ms = True
         return ms
     seen4 = run_monitor(Pa, False, step4)
     for n, wr in appends:
@@ -194,7 +201,7 @@ def run(ctx, rep):
         # the file entry's file is the new chunk's own file: `self.open.chunk.f`, read after self.open was replaced by the
         # chunk just created
         fe = wr[3][0] if wr[3] else None
-        creators = {b["key"] for b, bi, t in ctx.all_calls(r"fs::OpenOptions::create_new$")}
+        creators = chunk_creators(ctx)
 
         def from_creator(x):
             return contains(x, lambda y: isinstance(y, tuple) and y and y[0] in ("ret", "call") and
